@@ -648,7 +648,8 @@ Expr={expr}"""
             # exacerbated by the fact that the list contains duplicates.  This is a patch until
             # we can create a better fix for Serialization.
             try:
-                values = list(set(values))
+                # Order-preserving: the values end up in the expression name
+                values = list(dict.fromkeys(values))
             except TypeError:
                 pass
             if not any(is_dask_collection(v) for v in values):
